@@ -426,4 +426,22 @@ MUTANTS = [
            "            mask = np.frombuffer(index, dtype=np.uint8)\n",
            "            if len(index) != self._atom_count:\n                raise IndexError('mask length')\n            mask = np.frombuffer(index, dtype=np.uint8)\n",
            "R1.param-view-length-checked", "BondList.__getitem__", kind="repair"),
+    # --- one seeded fault per remaining rule ---------------------------------
+    Mutant("get-bonds-types-buffer-const", BONDS,
+           "        cdef np.ndarray bond_types = np.zeros(self._max_bonds_per_atom,\n                                              dtype=np.uint8)",
+           "        cdef np.ndarray bond_types = np.zeros(4,\n                                              dtype=np.uint8)",
+           "R3.buffer-sized-by-cache", "BondList.get_bonds"),
+    Mutant("get-all-bonds-buffer-const", BONDS,
+           "        cdef np.ndarray bonds = np.full(\n            (self._atom_count, self._max_bonds_per_atom), -1, dtype=np.int32\n        )",
+           "        cdef np.ndarray bonds = np.full(\n            (self._atom_count, 4), -1, dtype=np.int32\n        )",
+           "R3.buffer-sized-by-cache", "BondList.get_all_bonds"),
+    Mutant("atoms-writes-bond-cache", "structure/atoms.py",
+           "            new_object._bonds = self._bonds[index]\n",
+           "            new_object._bonds = self._bonds[index]\n            new_object._bonds._max_bonds_per_atom = self._bonds._max_bonds_per_atom\n",
+           "R4.who-may-write"),
+    # the tree violates R5.bond-type-lower (known finding): only the repair direction can be seeded
+    Mutant("repair-bond-type-lower", BONDS,
+           "                if (bonds[:, 2] >= len(BondType)).any():\n",
+           "                if (bonds[:, 2] < 0).any():\n                    raise ValueError(\"BondType must not be negative\")\n                if (bonds[:, 2] >= len(BondType)).any():\n",
+           "R5.bond-type-lower", "BondList.__init__", kind="repair"),
 ]
